@@ -216,6 +216,8 @@ static struct upipe *upipe_id3v2_alloc(struct upipe_mgr *mgr,
  */
 static void upipe_id3v2_free(struct upipe *upipe)
 {
+    upipe_throw_dead(upipe);
+
     upipe_id3v2_clean_proxy_probe(upipe);
     upipe_id3v2_clean_urefcount_real(upipe);
     upipe_id3v2_clean_urefcount(upipe);
@@ -228,8 +230,6 @@ static void upipe_id3v2_free(struct upipe *upipe)
  */
 static void upipe_id3v2_no_ref(struct upipe *upipe)
 {
-    upipe_throw_dead(upipe);
-
     upipe_id3v2_clean_bin_input(upipe);
     upipe_id3v2_clean_bin_output(upipe);
     upipe_id3v2_release_urefcount_real(upipe);
